@@ -1,6 +1,1155 @@
-//! C10 — stub (monitor not built yet).
-use crate::core::Ctx;
+//! C10 — CA protocol CMS (RFC 6492 provisioning / RFC 8181 publication) is
+//! accepted iff it is signed under the peer key, current and not revoked.
+//!
+//! Two sources of messages: (1) the library's own `SignedMessage::create` /
+//! `ProvisioningCms::create` / `PublicationCms::create`, whose validity is read
+//! back from the DER with the harness' reader; (2) the independent CMS
+//! assembler `c02_cms` with hand-written identity EE certificates and CRLs.
+//! The oracle is the conjunction in the statement, evaluated from the
+//! parameters the harness chose.
+
+use crate::c02_cms::{self as cms, Bc, Ber, CrlSpec, IdEeSpec, Revoked, SignedData};
+use crate::core::{hex, Ctx, Rng, Stage, Tier};
+use crate::keys::{sha256, PoolSigner};
+use bytes::Bytes;
+use rpki::ca::idexchange::{RecipientHandle, SenderHandle};
+use rpki::ca::provisioning::{self, ProvisioningCms};
+use rpki::ca::publication::{self, PublicationCms};
+use rpki::ca::sigmsg::SignedMessage;
+use rpki::crypto::PublicKey;
+use rpki::repository::x509::{Time, Validity};
+use serde_json::{json, Value};
+use std::str::FromStr;
+
+fn time(t: i64) -> Time {
+    Time::new(chrono::DateTime::from_timestamp(t, 0).expect("timestamp in range"))
+}
+
+const T0: i64 = 1_750_000_000; // 2025-06-15T15:06:40Z
+const NKEYS: usize = 6;
+
+//------------ decoding entry points -----------------------------------------
+
+#[derive(Clone, Copy, Debug, PartialEq, Eq)]
+enum Entry {
+    SignedStrict,
+    SignedRelaxed,
+    Provisioning,
+    Publication,
+}
+
+impl Entry {
+    fn name(self) -> &'static str {
+        match self {
+            Entry::SignedStrict => "SignedMessage-strict",
+            Entry::SignedRelaxed => "SignedMessage-relaxed",
+            Entry::Provisioning => "ProvisioningCms",
+            Entry::Publication => "PublicationCms",
+        }
+    }
+}
+
+enum Decoded {
+    S(SignedMessage),
+    P(ProvisioningCms),
+    U(PublicationCms),
+}
+
+impl Decoded {
+    fn validate_at(&self, key: &PublicKey, t: i64) -> Result<(), String> {
+        match self {
+            Decoded::S(m) => m.validate_at(key, time(t)).map_err(|e| e.to_string()),
+            Decoded::P(m) => m.validate_at(key, time(t)).map_err(|e| e.to_string()),
+            Decoded::U(m) => m.validate_at(key, time(t)).map_err(|e| e.to_string()),
+        }
+    }
+}
+
+fn decode(entry: Entry, bytes: &[u8]) -> Result<Decoded, String> {
+    match entry {
+        Entry::SignedStrict => SignedMessage::decode(Bytes::copy_from_slice(bytes), true).map(Decoded::S).map_err(|e| e.to_string()),
+        Entry::SignedRelaxed => SignedMessage::decode(Bytes::copy_from_slice(bytes), false).map(Decoded::S).map_err(|e| e.to_string()),
+        Entry::Provisioning => ProvisioningCms::decode(bytes).map(Decoded::P).map_err(|e| e.to_string()),
+        Entry::Publication => PublicationCms::decode(bytes).map(Decoded::U).map_err(|e| e.to_string()),
+    }
+}
+
+fn prov_xml(i: u64) -> Vec<u8> {
+    let s = SenderHandle::from_str(&format!("child-{}", i)).unwrap();
+    let r = RecipientHandle::from_str("parent_0/x").unwrap();
+    provisioning::Message::list(s, r).to_xml_bytes().to_vec()
+}
+
+fn publ_xml() -> Vec<u8> {
+    publication::Message::list_query().to_xml_bytes().to_vec()
+}
+
+//------------ part 1: messages created by the library -----------------------
+
+fn violation_category(v: &str) -> &'static str {
+    if v.starts_with("Digest") || v.starts_with("DupDigest") || v.starts_with("MissingDigest") {
+        "digest"
+    } else if v.starts_with("Sig") {
+        "signature"
+    } else if v.starts_with("ee-serial-on-crl") {
+        "revoked"
+    } else if v.starts_with("ee-not") || v.starts_with("ee-expired") || v.starts_with("crl-not") || v.starts_with("crl-stale") || v.starts_with("time") {
+        "time"
+    } else if v.starts_with("ee-") {
+        "ee-certificate"
+    } else if v.starts_with("crl") || v.starts_with("NoCrl") {
+        "crl"
+    } else {
+        "other"
+    }
+}
+
+fn time_class(t: i64, lo: i64, hi: i64) -> &'static str {
+    if t < lo {
+        "before"
+    } else if t == lo {
+        "at-start"
+    } else if t > hi {
+        "after"
+    } else if t == hi {
+        "at-end"
+    } else {
+        "inside"
+    }
+}
+
+fn created_message(ctx: &mut Ctx, pool: &PoolSigner, rng: &mut Rng, i: u64) {
+    let issuer = (i % 3) as usize; // 0, 1, 2 act as peer identity keys in turn
+    let ee_key = 3 + (i % 3) as usize;
+    pool.set_next_one_off(ee_key);
+    let which = i % 4;
+    // 0/1: SignedMessage::create with a chosen validity, 2: ProvisioningCms, 3: PublicationCms
+    let (bytes, entry): (Vec<u8>, Entry) = match which {
+        0 | 1 => {
+            let nb = T0 + rng.range(0, 1_000_000) as i64 - 500_000;
+            let len = *rng.pick(&[1i64, 2, 60, 600, 86_400, 400 * 86_400]);
+            let validity = Validity::new(time(nb), time(nb + len));
+            let n = rng.usize_below(300);
+            let data = Bytes::from(rng.bytes(n));
+            let m = match ctx.no_panic("SignedMessage::create", || json!({"i": i}), || SignedMessage::create(data, validity, &issuer, pool)) {
+                Some(Ok(m)) => m,
+                Some(Err(_)) => {
+                    ctx.notes.push("SignedMessage::create returned a signer error (harness problem, nothing asserted)".into());
+                    return;
+                }
+                None => return,
+            };
+            (m.to_captured().into_bytes().to_vec(), if which == 0 { Entry::SignedRelaxed } else { Entry::SignedStrict })
+        }
+        2 => {
+            let s = SenderHandle::from_str(&format!("child-{}", i)).unwrap();
+            let r = RecipientHandle::from_str("parent").unwrap();
+            let m = match ctx.no_panic("ProvisioningCms::create", || json!({"i": i}), || ProvisioningCms::create(provisioning::Message::list(s, r), &issuer, pool)) {
+                Some(Ok(m)) => m,
+                Some(Err(_)) => {
+                    ctx.notes.push("ProvisioningCms::create returned a signer error (harness problem, nothing asserted)".into());
+                    return;
+                }
+                None => return,
+            };
+            (m.to_bytes().to_vec(), Entry::Provisioning)
+        }
+        _ => {
+            let m = match ctx.no_panic("PublicationCms::create", || json!({"i": i}), || PublicationCms::create(publication::Message::list_query(), &issuer, pool)) {
+                Some(Ok(m)) => m,
+                Some(Err(_)) => {
+                    ctx.notes.push("PublicationCms::create returned a signer error (harness problem, nothing asserted)".into());
+                    return;
+                }
+                None => return,
+            };
+            (m.to_bytes().to_vec(), Entry::Publication)
+        }
+    };
+    // validity as it is on the wire, read by the harness' own DER reader
+    let (Some((nb, na)), Some((tu, nu))) = (cms::embedded_cert_validity(&bytes), cms::embedded_crl_window(&bytes)) else {
+        ctx.violation(
+            "C10:created-message:not-der-readable",
+            "a message created by the library does not have the RFC 6492 layout (EE certificate, CRL) when read by an independent DER reader",
+            json!({"entry": entry.name(), "message": hex(&bytes)}),
+        );
+        return;
+    };
+    let dec = ctx.no_panic("decode-created", || json!({"entry": entry.name(), "message": hex(&bytes)}), || decode(entry, &bytes));
+    let Some(dec) = dec else { return };
+    let dec = match dec {
+        Ok(d) => d,
+        Err(e) => {
+            ctx.eval();
+            ctx.violation(
+                "C10:created-message:does-not-decode",
+                &format!("a message created by the library is rejected by its own decoder ({}): {}", entry.name(), e),
+                json!({"entry": entry.name(), "message": hex(&bytes)}),
+            );
+            return;
+        }
+    };
+    let lo = nb.max(tu);
+    let hi = na.min(nu);
+    let mut times = vec![nb - 1, nb, nb + 1, na - 1, na, na + 1, tu - 1, tu, nu, nu + 1, lo + (hi - lo) / 2];
+    if hi > lo {
+        times.push(lo + (rng.next_u64() % (hi - lo + 1) as u64) as i64);
+    }
+    times.sort();
+    times.dedup();
+    let mut n = 0u64;
+    for t in &times {
+        let expected = *t >= lo && *t <= hi;
+        let key = pool.info(issuer);
+        let Some(r) = ctx.no_panic("validate-created", || json!({"entry": entry.name(), "t": t, "message": hex(&bytes)}), || dec.validate_at(&key, *t)) else { continue };
+        n += 1;
+        let tc = time_class(*t, lo, hi);
+        ctx.sig(&format!("created {} window-len-class={} time={} key=peer", entry.name(), if hi - lo < 3 { "tiny" } else if hi - lo < 1000 { "minutes" } else { "long" }, tc));
+        ctx.obs(if r.is_ok() { "created:accepted" } else { "created:rejected" }, 1);
+        let detail = || json!({"entry": entry.name(), "issuer_key": issuer, "ee_key": ee_key, "t": t, "not_before": nb, "not_after": na, "this_update": tu, "next_update": nu, "observed": format!("{:?}", r), "message": hex(&bytes)});
+        if expected && r.is_err() {
+            ctx.violation(
+                &format!("C10:created-message:rejected-within-validity:{}", tc),
+                &format!("a message created by the library is rejected under the issuing key at a time inside its validity ({}): {}", tc, r.clone().unwrap_err()),
+                detail(),
+            );
+        } else if !expected && r.is_ok() {
+            ctx.violation(
+                &format!("C10:created-message:accepted-outside-validity:{}", tc),
+                &format!("a message created by the library is accepted at a time outside its validity ({})", tc),
+                detail(),
+            );
+        }
+        ctx.sample("c:created-message", || json!({"entry": entry.name(), "t": t, "not_before": nb, "not_after": na, "time": tc, "expected": if expected { "accept" } else { "reject" }, "observed": format!("{:?}", r)}));
+    }
+    // no other key validates it
+    let mid = lo + (hi - lo) / 2;
+    for k in 0..NKEYS {
+        if k == issuer {
+            continue;
+        }
+        let key = pool.info(k);
+        let Some(r) = ctx.no_panic("validate-created-other-key", || json!({"entry": entry.name(), "key": k, "message": hex(&bytes)}), || dec.validate_at(&key, mid)) else { continue };
+        n += 1;
+        ctx.sig(&format!("created {} key={}", entry.name(), if k == ee_key { "ee-key-itself" } else { "other" }));
+        ctx.obs(if r.is_ok() { "created:accepted" } else { "created:rejected" }, 1);
+        if r.is_ok() {
+            ctx.violation(
+                "C10:created-message:accepted-under-other-key",
+                "a message created by the library validates under a key that did not issue it",
+                json!({"entry": entry.name(), "issuer_key": issuer, "ee_key": ee_key, "validated_under": k, "t": mid, "message": hex(&bytes)}),
+            );
+        }
+    }
+    ctx.evals(n);
+}
+
+//------------ part 2: independent encoder ------------------------------------
+
+#[derive(Clone, Copy, Debug, PartialEq, Eq)]
+enum Aki {
+    Issuer,
+    Absent,
+    OtherKey,
+}
+
+#[derive(Clone, Debug, PartialEq, Eq)]
+enum Rev {
+    /// revokedCertificates absent
+    Absent,
+    /// present but empty (not DER-legal for RFC 5280, tolerated by some)
+    Empty,
+    /// lists `n` serials, none of them the EE's
+    Others(usize),
+    /// lists the EE serial at position `pos` of `n` entries
+    ListsEe { n: usize, pos: usize, with_ext: bool },
+}
+
+#[derive(Clone, Copy, Debug, PartialEq, Eq)]
+enum Tamper {
+    None,
+    DigestOfOtherContent,
+    DigestBitFlip,
+    SigOtherKey,
+    SigCtx0,
+    SigOverContent,
+    MissingDigest,
+    DupDigestWrongSecond,
+    NoCrl,
+    // recorded only
+    SidOtherKey,
+    MissingSigningTime,
+    ContentTypeNotXml,
+}
+
+#[derive(Clone, Debug)]
+struct Msg {
+    entry: Entry,
+    content: Vec<u8>,
+    issuer: usize,
+    ee_key: usize,
+    // EE certificate
+    ee_serial: Vec<u8>,
+    ee_nb: i64,
+    ee_na: i64,
+    ee_aki: Aki,
+    ee_bc: Bc,
+    ee_key_usage: bool,
+    ee_signer: usize,
+    // CRL
+    crl_tu: i64,
+    crl_nu: i64,
+    crl_rev: Rev,
+    crl_aki: Aki,
+    crl_number: bool,
+    crl_general_time: bool,
+    crl_signer: usize,
+    // signed attributes
+    binary_signing_time: bool,
+    extras: usize,
+    attrs_total: Option<usize>,
+    shuffle: Option<u64>,
+    sign_der: bool,
+    tamper: Tamper,
+    ber: Ber,
+    label: String,
+}
+
+impl Msg {
+    fn base(entry: Entry, rng: &mut Rng, i: u64) -> Msg {
+        let content = match entry {
+            Entry::Provisioning => prov_xml(i),
+            Entry::Publication => publ_xml(),
+            _ => {
+                let n = rng.usize_below(400);
+                rng.bytes(n)
+            }
+        };
+        let serials: [&[u8]; 6] = [&[1], &[0x7f], &[0x80], &[0x01, 0x00], &[0xff; 8], &[0x12; 20]];
+        Msg {
+            entry,
+            content,
+            issuer: 0,
+            ee_key: 1 + (i % 2) as usize,
+            ee_serial: serials[(i % 6) as usize].to_vec(),
+            ee_nb: T0 - 300,
+            ee_na: T0 + 300,
+            ee_aki: Aki::Issuer,
+            ee_bc: Bc::Absent,
+            ee_key_usage: false,
+            ee_signer: 0,
+            crl_tu: T0 - 300,
+            crl_nu: T0 + 300,
+            crl_rev: Rev::Absent,
+            crl_aki: Aki::Issuer,
+            crl_number: true,
+            crl_general_time: false,
+            crl_signer: 0,
+            binary_signing_time: false,
+            extras: 0,
+            attrs_total: None,
+            shuffle: None,
+            sign_der: false,
+            tamper: Tamper::None,
+            ber: Ber::default(),
+            label: "plain".into(),
+        }
+    }
+
+    /// Features the statement does not decide: the outcome is only recorded.
+    fn recorded_reason(&self) -> Option<&'static str> {
+        if self.ee_bc == Bc::CaFalseExplicit {
+            Some("explicit-false-in-basic-constraints")
+        } else if self.crl_rev == Rev::Empty {
+            Some("empty-revoked-list-present")
+        } else if self.crl_general_time {
+            Some("crl-generalized-time-before-2050")
+        } else if !self.crl_number && self.crl_aki == Aki::Absent {
+            Some("crl-with-empty-extensions")
+        } else if self.ee_aki == Aki::OtherKey && self.ee_signer == self.issuer {
+            Some("ee-aki-names-other-key-but-signature-by-peer")
+        } else if self.crl_aki == Aki::OtherKey && self.crl_signer == self.issuer {
+            Some("crl-aki-names-other-key-but-signature-by-peer")
+        } else if matches!(self.tamper, Tamper::SidOtherKey | Tamper::MissingSigningTime | Tamper::ContentTypeNotXml) {
+            Some("outside-statement-tamper")
+        } else if !self.ber.is_der() && self.entry == Entry::SignedStrict {
+            Some("ber-in-strict-mode")
+        } else {
+            None
+        }
+    }
+
+    /// The one time-independent condition this message violates, if any.
+    fn static_violation(&self) -> Option<String> {
+        if !matches!(self.tamper, Tamper::None | Tamper::SidOtherKey | Tamper::MissingSigningTime | Tamper::ContentTypeNotXml) {
+            return Some(format!("{:?}", self.tamper));
+        }
+        if self.ee_signer != self.issuer {
+            return Some(if self.ee_aki == Aki::Absent { "ee-signed-by-other-key-no-aki".into() } else if self.ee_aki == Aki::Issuer { "ee-signed-by-other-key-aki-names-peer".into() } else { "ee-issued-by-other-key".into() });
+        }
+        if self.ee_bc == Bc::CaTrue {
+            return Some("ee-is-ca".into());
+        }
+        if self.crl_signer != self.issuer {
+            return Some(if self.crl_aki == Aki::Absent { "crl-signed-by-other-key-no-aki".into() } else if self.crl_aki == Aki::Issuer { "crl-signed-by-other-key-aki-names-peer".into() } else { "crl-issued-by-other-key".into() });
+        }
+        if let Rev::ListsEe { .. } = self.crl_rev {
+            return Some("ee-serial-on-crl".into());
+        }
+        None
+    }
+
+    fn crl_shape(&self) -> String {
+        format!(
+            "aki={:?},rev={},num={}",
+            self.crl_aki,
+            match &self.crl_rev {
+                Rev::Absent => "absent".to_string(),
+                Rev::Empty => "empty".to_string(),
+                Rev::Others(n) => format!("others{}", if *n > 1 { "N" } else { "1" }),
+                Rev::ListsEe { n, pos, with_ext } => format!("ee@{}{}", if *pos == 0 { "first" } else if pos + 1 == *n { "last" } else { "middle" }, if *with_ext { "+ext" } else { "" }),
+            },
+            self.crl_number
+        )
+    }
+}
+
+struct BuiltMsg {
+    bytes: Vec<u8>,
+    attrs_len: usize,
+    sorted: bool,
+}
+
+fn aki_bytes(pool: &PoolSigner, a: Aki, issuer: usize) -> Option<Vec<u8>> {
+    match a {
+        Aki::Issuer => Some(cms::ski_of_spki(&pool.key(issuer).spki)),
+        Aki::Absent => None,
+        Aki::OtherKey => Some(cms::ski_of_spki(&pool.key(5).spki)),
+    }
+}
+
+fn build(pool: &PoolSigner, m: &Msg) -> BuiltMsg {
+    let other_key = 4;
+    let ee_spki = pool.key(m.ee_key).spki.clone();
+    let ski = cms::ski_of_spki(&ee_spki);
+    let ee = IdEeSpec {
+        serial: m.ee_serial.clone(),
+        issuer_cn: format!("peer-{}", m.issuer),
+        subject_cn: "ee".into(),
+        not_before: m.ee_nb,
+        not_after: m.ee_na,
+        spki: ee_spki,
+        ski: ski.clone(),
+        aki: aki_bytes(pool, m.ee_aki, m.issuer),
+        bc: m.ee_bc,
+        key_usage: m.ee_key_usage,
+    };
+    let ee_der = cms::x509_signed(&cms::id_ee_tbs(&ee), pool.key(m.ee_signer));
+    let other_serial = |k: usize| -> Vec<u8> {
+        let mut s = vec![0x40 + k as u8, 0x01];
+        if s == m.ee_serial {
+            s.push(1);
+        }
+        s
+    };
+    let revoked: Option<Vec<Revoked>> = match &m.crl_rev {
+        Rev::Absent => None,
+        Rev::Empty => Some(vec![]),
+        Rev::Others(n) => Some((0..*n).map(|k| Revoked { serial: other_serial(k), when: m.crl_tu - 10, with_ext: k % 2 == 1 }).collect()),
+        Rev::ListsEe { n, pos, with_ext } => Some(
+            (0..*n)
+                .map(|k| if k == *pos { Revoked { serial: m.ee_serial.clone(), when: m.crl_tu - 10, with_ext: *with_ext } } else { Revoked { serial: other_serial(k), when: m.crl_tu - 10, with_ext: false } })
+                .collect(),
+        ),
+    };
+    let crl = CrlSpec {
+        issuer_cn: format!("peer-{}", m.issuer),
+        this_update: m.crl_tu,
+        next_update: m.crl_nu,
+        revoked,
+        aki: aki_bytes(pool, m.crl_aki, m.issuer),
+        crl_number: if m.crl_number { Some(77) } else { None },
+        general_time: m.crl_general_time,
+    };
+    let crl_der = cms::x509_signed(&cms::crl_tbs(&crl), pool.key(m.crl_signer));
+
+    let good = sha256(&m.content);
+    let digest = match m.tamper {
+        Tamper::DigestOfOtherContent => {
+            let mut c = m.content.clone();
+            c.push(b' ');
+            sha256(&c)
+        }
+        Tamper::DigestBitFlip => {
+            let mut d = good.clone();
+            d[31] ^= 1;
+            d
+        }
+        _ => good.clone(),
+    };
+    let ct = if m.tamper == Tamper::ContentTypeNotXml { crate::der::oid(crate::der::OID_CT_GHOSTBUSTERS) } else { crate::der::oid(crate::der::OID_CT_XML) };
+    let md_attr = cms::attr_message_digest(&digest);
+    let mut attrs = vec![cms::attr_content_type(&ct), md_attr.clone(), cms::attr_signing_time(T0)];
+    if m.binary_signing_time {
+        attrs.push(cms::attr_binary_signing_time(T0));
+    }
+    for k in 0..m.extras {
+        attrs.push(cms::attr_extra(100 + k as u32, 5 + 9 * k));
+    }
+    if let Some(total) = m.attrs_total {
+        let ok = cms::pad_attrs_to(&mut attrs, total, 10);
+        debug_assert!(ok, "cannot pad to {}", total);
+    }
+    match m.tamper {
+        Tamper::MissingDigest => attrs.retain(|a| *a != md_attr),
+        Tamper::MissingSigningTime => {
+            attrs.remove(2);
+        }
+        _ => {}
+    }
+    let mut attrs = cms::sort_attrs(&attrs);
+    if m.tamper == Tamper::DupDigestWrongSecond {
+        let mut wrong = good.clone();
+        wrong[0] ^= 0x80;
+        let pos = attrs.iter().position(|a| *a == md_attr).unwrap();
+        attrs.insert(pos + 1, cms::attr_message_digest(&wrong));
+    }
+    if let Some(seed) = m.shuffle {
+        let mut r = Rng::new(seed);
+        r.shuffle(&mut attrs);
+    }
+    let sorted = cms::attrs_sorted(&attrs);
+    let to_sign = if m.sign_der { cms::sort_attrs(&attrs) } else { attrs.clone() };
+    let signature = match m.tamper {
+        Tamper::SigOtherKey => pool.key(other_key).sign_raw(&cms::sig_input_set(&to_sign)),
+        Tamper::SigCtx0 => pool.key(m.ee_key).sign_raw(&cms::sig_input_ctx0(&to_sign)),
+        Tamper::SigOverContent => pool.key(m.ee_key).sign_raw(&m.content),
+        _ => pool.key(m.ee_key).sign_raw(&cms::sig_input_set(&to_sign)),
+    };
+    let sid = if m.tamper == Tamper::SidOtherKey { cms::ski_of_spki(&pool.key(other_key).spki) } else { ski };
+    let attrs_len = cms::attrs_len(&attrs);
+    let mut sd = SignedData::protocol(m.content.clone(), ee_der, crl_der, sid, attrs, signature);
+    sd.content_type = ct;
+    if m.tamper == Tamper::NoCrl {
+        sd.crls.clear();
+    }
+    sd.ber = m.ber.clone();
+    BuiltMsg { bytes: sd.encode(), attrs_len, sorted }
+}
+
+fn msg_json(m: &Msg, b: &BuiltMsg) -> Value {
+    json!({
+        "entry": m.entry.name(),
+        "label": m.label,
+        "issuer_key": m.issuer,
+        "ee": {"key": m.ee_key, "serial": hex(&m.ee_serial), "not_before": m.ee_nb, "not_after": m.ee_na, "aki": format!("{:?}", m.ee_aki), "basic_constraints": format!("{:?}", m.ee_bc), "key_usage": m.ee_key_usage, "signed_by": m.ee_signer},
+        "crl": {"this_update": m.crl_tu, "next_update": m.crl_nu, "revoked": format!("{:?}", m.crl_rev), "aki": format!("{:?}", m.crl_aki), "crl_number": m.crl_number, "generalized_time": m.crl_general_time, "signed_by": m.crl_signer},
+        "signed_attrs_len": b.attrs_len,
+        "signed_attrs_in_der_order": b.sorted,
+        "signed_der_sorted_instead_of_emitted": m.sign_der,
+        "tamper": format!("{:?}", m.tamper),
+        "ber": m.ber.describe(),
+        "message": hex(&b.bytes),
+    })
+}
+
+/// Instants around both windows.
+fn instants(m: &Msg) -> Vec<i64> {
+    let lo = m.ee_nb.max(m.crl_tu);
+    let hi = m.ee_na.min(m.crl_nu);
+    let mut v = vec![m.ee_nb - 1, m.ee_nb, m.ee_na, m.ee_na + 1, m.crl_tu - 1, m.crl_tu, m.crl_nu, m.crl_nu + 1];
+    if lo <= hi {
+        v.push(lo + (hi - lo) / 2);
+    }
+    v.sort();
+    v.dedup();
+    v
+}
+
+fn time_position(m: &Msg, t: i64) -> String {
+    format!("ee:{}/crl:{}", time_class(t, m.ee_nb, m.ee_na), time_class(t, m.crl_tu, m.crl_nu))
+}
+
+/// Runs one message through decode + validate_at over the time / key plan.
+/// Returns Some(accepted at a time inside both windows under the peer key).
+fn run_msg(ctx: &mut Ctx, pool: &PoolSigner, m: &Msg, full_plan: bool) -> Option<bool> {
+    let b = build(pool, m);
+    let cls = cms::size_class(b.attrs_len);
+    let stat = m.static_violation();
+    let recorded = m.recorded_reason();
+    let lo = m.ee_nb.max(m.crl_tu);
+    let hi = m.ee_na.min(m.crl_nu);
+    let mid = lo + (hi - lo).max(0) / 2;
+    ctx.obs(&format!("messages_attrs{}", cls), 1);
+    ctx.obs_max("signed_attrs_len", b.attrs_len as u64);
+    let dec = ctx.no_panic("decode", || msg_json(m, &b), || decode(m.entry, &b.bytes))?;
+    let order = if b.sorted { "der" } else { "unsorted" };
+    let base_sig = format!(
+        "msg {} order={} attrs{} violated={} crl[{}] ee[aki={:?},bc={:?}] ber={}{}",
+        m.entry.name(),
+        order,
+        cls,
+        stat.clone().unwrap_or_else(|| "none".into()),
+        m.crl_shape(),
+        m.ee_aki,
+        m.ee_bc,
+        m.ber.describe(),
+        if m.sign_der { " signed-der" } else { "" }
+    );
+    let what_is_special = || -> String {
+        if b.attrs_len >= 128 {
+            format!("signed-attrs{}", cls)
+        } else if !m.ber.is_der() {
+            format!("ber:{}", m.ber.describe())
+        } else {
+            m.label.clone()
+        }
+    };
+    let dec = match dec {
+        Ok(d) => d,
+        Err(e) => {
+            ctx.eval();
+            ctx.obs("rejected_at_decode", 1);
+            ctx.sig(&format!("{} undecodable", base_sig));
+            if let Some(why) = recorded {
+                ctx.obs(&format!("recorded:{}:rejected", why), 1);
+                ctx.sample("e:recorded", || json!({"why_not_asserted": why, "entry": m.entry.name(), "label": m.label, "observed": format!("rejected at decode: {}", e)}));
+                return Some(false);
+            }
+            if stat.is_none() && lo <= hi {
+                let mut d = msg_json(m, &b);
+                d["observed_error"] = json!(e);
+                ctx.violation(
+                    &format!("C10:valid-rejected:{}", what_is_special()),
+                    &format!("a correctly signed, current, unrevoked message does not even decode ({}): {}", m.entry.name(), e),
+                    d,
+                );
+            }
+            return Some(false);
+        }
+    };
+    let mut n = 0u64;
+    let mut accepted_mid = false;
+    // the middle instant first: if that already fails, the boundary instants fail for the same reason
+    let mut times = if full_plan { instants(m) } else { vec![mid] };
+    if let Some(p) = times.iter().position(|t| *t == mid) {
+        times.swap(0, p);
+    }
+    let mut mid_failed = false;
+    for t in times {
+        let in_ee = t >= m.ee_nb && t <= m.ee_na;
+        let in_crl = t >= m.crl_tu && t <= m.crl_nu;
+        let violated: Option<String> = match &stat {
+            Some(s) => Some(s.clone()),
+            None if !in_ee && !in_crl => Some("time-outside-both-windows".into()),
+            None if !in_ee => Some(format!("ee-{}", if t < m.ee_nb { "not-yet-valid" } else { "expired" })),
+            None if !in_crl => Some(format!("crl-{}", if t < m.crl_tu { "not-yet-valid" } else { "stale" })),
+            None => None,
+        };
+        let expected = violated.is_none();
+        let key = pool.info(m.issuer);
+        let Some(r) = ctx.no_panic("validate_at", || msg_json(m, &b), || dec.validate_at(&key, t)) else { continue };
+        n += 1;
+        let tp = time_position(m, t);
+        ctx.sig(&format!("{} time={} key=peer", base_sig, tp));
+        ctx.obs(if r.is_ok() { "accepted" } else { "rejected" }, 1);
+        if r.is_ok() {
+            ctx.obs(&format!("accepted_attrs{}", cls), 1);
+        }
+        if t == mid {
+            accepted_mid = r.is_ok();
+        }
+        if let Some(why) = recorded {
+            ctx.obs(&format!("recorded:{}:{}", why, if r.is_ok() { "accepted" } else { "rejected" }), 1);
+            ctx.sample("e:recorded", || json!({"why_not_asserted": why, "entry": m.entry.name(), "label": m.label, "time": tp, "observed": format!("{:?}", r)}));
+            continue;
+        }
+        if expected && r.is_err() && t != mid && mid_failed {
+            ctx.obs("boundary_instants_failing_like_the_middle_one", 1);
+        } else if expected && r.is_err() {
+            if t == mid {
+                mid_failed = true;
+            }
+            let mut d = msg_json(m, &b);
+            d["t"] = json!(t);
+            d["observed_error"] = json!(r.clone().unwrap_err());
+            let what = if t == mid { what_is_special() } else { format!("time:{}", tp) };
+            ctx.violation(
+                &format!("C10:valid-rejected:{}", what),
+                &format!("a correctly signed message that is current ({}) and not revoked was rejected under the peer key: {}", tp, r.unwrap_err()),
+                d,
+            );
+        } else if !expected && r.is_ok() {
+            let mut d = msg_json(m, &b);
+            d["t"] = json!(t);
+            let v = violated.clone().unwrap();
+            let v = if stat.is_none() { format!("{}:{}", v, tp) } else { v };
+            ctx.violation(
+                &format!("C10:invalid-accepted:{}", v),
+                &format!("a message violating exactly one condition ({}) was accepted at {}", violated.unwrap(), tp),
+                d,
+            );
+        } else {
+            let skind = if expected { format!("a:valid:{}", m.entry.name()) } else { format!("b:violation:{}", violation_category(violated.as_deref().unwrap())) };
+            ctx.sample(&skind, || {
+                json!({"entry": m.entry.name(), "label": m.label, "signed_attrs_len": b.attrs_len, "crl": m.crl_shape(), "time": tp, "expected": if expected { "accept" } else { "reject" },
+                       "observed": format!("{:?}", r), "message_len": b.bytes.len()})
+            });
+        }
+    }
+    // key relation: nobody else's key validates it
+    if full_plan && lo <= hi {
+        for k in 1..NKEYS {
+            if k == m.issuer {
+                continue;
+            }
+            // the key that really signed a forged EE / CRL is interesting, the rest is sampled
+            if !(k == m.ee_signer || k == m.crl_signer || k == m.ee_key || k == 5 || k == 3) {
+                continue;
+            }
+            let key = pool.info(k);
+            let Some(r) = ctx.no_panic("validate_at-other-key", || msg_json(m, &b), || dec.validate_at(&key, mid)) else { continue };
+            n += 1;
+            ctx.obs(if r.is_ok() { "accepted" } else { "rejected" }, 1);
+            let rel = if k == m.ee_key { "ee-key" } else if k == m.ee_signer || k == m.crl_signer { "forger-key" } else { "unrelated-key" };
+            ctx.sig(&format!("{} key={}", base_sig, rel));
+            // under a key that signed neither or only one of EE / CRL the message must fail
+            let fully_signed_by_k = m.ee_signer == k && m.crl_signer == k;
+            if r.is_ok() && !fully_signed_by_k && recorded.is_none() {
+                let mut d = msg_json(m, &b);
+                d["validated_under_key"] = json!(k);
+                ctx.violation(
+                    &format!("C10:invalid-accepted:validated-under-{}", rel),
+                    "a message validates against a key that did not sign both its EE certificate and its CRL",
+                    d,
+                );
+            }
+        }
+    }
+    ctx.evals(n);
+    Some(accepted_mid)
+}
+
+fn ber_variants() -> Vec<Ber> {
+    let d = Ber::default();
+    vec![
+        Ber { indef_content_info: true, ..d.clone() },
+        Ber { indef_content0: true, indef_signed_data: true, ..d.clone() },
+        Ber { indef_encap: true, indef_econtent0: true, ..d.clone() },
+        Ber { econtent_chunks: Some(vec![1]), ..d.clone() },
+        Ber { econtent_chunks: Some(vec![0, 16, 0]), econtent_indef: true, ..d.clone() },
+        Ber { indef_certs: true, ..d.clone() },
+        Ber { indef_signer_infos: true, indef_signer_info: true, ..d.clone() },
+        Ber { pad_outer: 4, pad_signed_data: 3, pad_signature: 3, ..d.clone() },
+    ]
+}
+
+const ENTRIES: [Entry; 4] = [Entry::SignedRelaxed, Entry::SignedStrict, Entry::Provisioning, Entry::Publication];
+
+/// Structured message list of one round; the head is a cross-section for tiny budgets.
+fn round_msgs(rng: &mut Rng, round: u64) -> Vec<Msg> {
+    let mut out: Vec<Msg> = Vec::new();
+    let mut i = round * 10_000;
+    let mut next = |rng: &mut Rng, e: Entry, label: &str| -> Msg {
+        i += 1;
+        let mut m = Msg::base(e, rng, i);
+        m.label = label.into();
+        m
+    };
+    // ---- head
+    for e in ENTRIES {
+        out.push(next(rng, e, "plain"));
+    }
+    for total in [127usize, 128, 256] {
+        let mut m = next(rng, Entry::SignedRelaxed, "attrs-total");
+        m.attrs_total = Some(total);
+        out.push(m);
+    }
+    for (k, t) in [Tamper::DigestBitFlip, Tamper::SigOtherKey, Tamper::SigCtx0].iter().enumerate() {
+        let mut m = next(rng, ENTRIES[k % 4], "tamper");
+        m.tamper = *t;
+        out.push(m);
+    }
+    {
+        let mut m = next(rng, Entry::Provisioning, "ee-ca-true");
+        m.ee_bc = Bc::CaTrue;
+        out.push(m);
+        let mut m = next(rng, Entry::Publication, "crl-lists-ee");
+        m.crl_rev = Rev::ListsEe { n: 3, pos: 1, with_ext: false };
+        out.push(m);
+        let mut m = next(rng, Entry::SignedRelaxed, "crl-forged");
+        m.crl_signer = 3;
+        m.crl_aki = Aki::Absent;
+        out.push(m);
+        let mut m = next(rng, Entry::SignedStrict, "ee-forged");
+        m.ee_signer = 3;
+        m.ee_aki = Aki::Absent;
+        out.push(m);
+    }
+
+    // ---- EE / CRL shape matrix (all valid unless a shape says otherwise)
+    let mut k = 0usize;
+    for ee_aki in [Aki::Issuer, Aki::Absent] {
+        for bc in [Bc::Absent, Bc::CaFalse, Bc::CaTrue, Bc::CaFalseExplicit] {
+            for crl_aki in [Aki::Issuer, Aki::Absent] {
+                for rev in [Rev::Absent, Rev::Others(1), Rev::Others(4), Rev::Empty] {
+                    k += 1;
+                    let mut m = next(rng, ENTRIES[k % 4], "shape-matrix");
+                    m.ee_aki = ee_aki;
+                    m.ee_bc = bc;
+                    m.crl_aki = crl_aki;
+                    m.crl_rev = rev;
+                    m.ee_key_usage = k % 3 == 0;
+                    out.push(m);
+                }
+            }
+        }
+    }
+    // revoked EE at every position, with and without entry extensions, all serial shapes
+    for n in [1usize, 2, 5] {
+        for pos in 0..n {
+            for with_ext in [false, true] {
+                k += 1;
+                let mut m = next(rng, ENTRIES[k % 4], "ee-revoked");
+                m.crl_rev = Rev::ListsEe { n, pos, with_ext };
+                m.crl_aki = if k % 2 == 0 { Aki::Issuer } else { Aki::Absent };
+                out.push(m);
+            }
+        }
+    }
+    // forged EE / CRL in all AKI flavours
+    for aki in [Aki::Issuer, Aki::Absent, Aki::OtherKey] {
+        for signer in [3usize, 5] {
+            k += 1;
+            let mut m = next(rng, ENTRIES[k % 4], "ee-forged");
+            m.ee_signer = signer;
+            m.ee_aki = aki;
+            out.push(m);
+            let mut m = next(rng, ENTRIES[(k + 1) % 4], "crl-forged");
+            m.crl_signer = signer;
+            m.crl_aki = aki;
+            out.push(m);
+        }
+        // EE signed by its own key
+        let mut m = next(rng, ENTRIES[k % 4], "ee-self-signed");
+        m.ee_signer = m.ee_key;
+        m.ee_aki = aki;
+        out.push(m);
+    }
+    // AKI naming somebody else although the peer signed: recorded
+    {
+        let mut m = next(rng, Entry::SignedRelaxed, "ee-aki-other");
+        m.ee_aki = Aki::OtherKey;
+        out.push(m);
+        let mut m = next(rng, Entry::SignedRelaxed, "crl-aki-other");
+        m.crl_aki = Aki::OtherKey;
+        out.push(m);
+        let mut m = next(rng, Entry::SignedRelaxed, "crl-generalized-time");
+        m.crl_general_time = true;
+        out.push(m);
+        let mut m = next(rng, Entry::SignedRelaxed, "crl-empty-extensions");
+        m.crl_number = false;
+        m.crl_aki = Aki::Absent;
+        out.push(m);
+        let mut m = next(rng, Entry::SignedRelaxed, "crl-number-only-absent");
+        m.crl_number = false;
+        out.push(m);
+    }
+    // windows: CRL inside EE, EE inside CRL, overlapping both ways, one-second windows, disjoint
+    let windows: [(i64, i64, i64, i64, &str); 8] = [
+        (-300, 300, -100, 100, "crl-inside-ee"),
+        (-100, 100, -300, 300, "ee-inside-crl"),
+        (-300, 100, -100, 300, "ee-ends-first"),
+        (-100, 300, -300, 100, "crl-ends-first"),
+        (0, 0, -10, 10, "ee-one-instant"),
+        (-10, 10, 0, 0, "crl-one-instant"),
+        (-300, -1, 0, 300, "disjoint-ee-before-crl"),
+        (0, 300, -300, 0, "touching-at-one-instant"),
+    ];
+    for (a, b2, c, d, label) in windows {
+        k += 1;
+        let mut m = next(rng, ENTRIES[k % 4], label);
+        m.ee_nb = T0 + a;
+        m.ee_na = T0 + b2;
+        m.crl_tu = T0 + c;
+        m.crl_nu = T0 + d;
+        out.push(m);
+    }
+    // a window crossing 2049/2050 (UTCTime -> GeneralizedTime in certificate and CRL)
+    {
+        let y2050 = cms::unix_from_civil(2050, 1, 1, 0, 0, 0);
+        let mut m = next(rng, Entry::SignedRelaxed, "window-across-2050");
+        m.ee_nb = y2050 - 100;
+        m.ee_na = y2050 + 100;
+        m.crl_tu = y2050 - 50;
+        m.crl_nu = y2050 + 50;
+        out.push(m);
+    }
+
+    // ---- signed attribute sizes
+    for total in [124usize, 125, 126, 127, 128, 129, 130, 200, 254, 255, 256, 257, 258, 300, 1000, 4000] {
+        k += 1;
+        let mut m = next(rng, ENTRIES[k % 4], "attrs-total");
+        m.attrs_total = Some(total);
+        m.binary_signing_time = false;
+        out.push(m);
+    }
+    for extras in [1usize, 2, 3, 5, 8] {
+        for bst in [false, true] {
+            k += 1;
+            let mut m = next(rng, ENTRIES[k % 4], "extra-attrs");
+            m.extras = extras;
+            m.binary_signing_time = bst;
+            out.push(m);
+        }
+    }
+    for _ in 0..6 {
+        k += 1;
+        let mut m = next(rng, ENTRIES[k % 4], "attrs-total-random");
+        m.attrs_total = Some(131 + rng.usize_below(900));
+        out.push(m);
+    }
+    // ---- attribute order (both signature conventions are run by the driver)
+    for extras in [0usize, 1, 3] {
+        for s in 0..4u64 {
+            k += 1;
+            let mut m = next(rng, ENTRIES[k % 4], "attr-order");
+            m.extras = extras;
+            m.binary_signing_time = s % 2 == 1;
+            m.shuffle = Some(round * 1000 + k as u64 * 17 + s);
+            out.push(m);
+        }
+    }
+    // ---- single violations of the CMS layer, also with long attributes
+    for t in [Tamper::DigestOfOtherContent, Tamper::DigestBitFlip, Tamper::SigOtherKey, Tamper::SigCtx0, Tamper::SigOverContent, Tamper::MissingDigest, Tamper::DupDigestWrongSecond, Tamper::NoCrl] {
+        for total in [None, Some(128usize), Some(300)] {
+            k += 1;
+            let mut m = next(rng, ENTRIES[k % 4], "tamper");
+            m.tamper = t;
+            m.attrs_total = total;
+            out.push(m);
+        }
+    }
+    for t in [Tamper::SidOtherKey, Tamper::MissingSigningTime, Tamper::ContentTypeNotXml] {
+        k += 1;
+        let mut m = next(rng, ENTRIES[k % 2], "tamper-recorded");
+        m.tamper = t;
+        out.push(m);
+    }
+    // ---- BER re-encodings
+    for ber in ber_variants() {
+        for e in [Entry::SignedRelaxed, Entry::Provisioning, Entry::Publication, Entry::SignedStrict] {
+            k += 1;
+            if k % 2 == (round % 2) as usize && e != Entry::SignedRelaxed {
+                continue;
+            }
+            let mut m = next(rng, e, "ber");
+            m.ber = ber.clone();
+            out.push(m);
+        }
+    }
+    out
+}
+
+//------------ bit flips ------------------------------------------------------
+
+fn run_flips(ctx: &mut Ctx, pool: &PoolSigner, budget: u64, exhaustive: bool) {
+    let mut rng = ctx.rng("flip-messages");
+    let mut msgs: Vec<Msg> = Vec::new();
+    let mut a = Msg::base(Entry::SignedRelaxed, &mut rng, 1);
+    a.crl_rev = Rev::Others(2);
+    msgs.push(a);
+    let mut b = Msg::base(Entry::Provisioning, &mut rng, 2);
+    b.ee_aki = Aki::Absent;
+    b.crl_aki = Aki::Absent;
+    b.ee_bc = Bc::CaFalse;
+    msgs.push(b);
+    let mut c = Msg::base(Entry::Publication, &mut rng, 3);
+    c.attrs_total = Some(200);
+    msgs.push(c);
+    let mut d = Msg::base(Entry::SignedStrict, &mut rng, 4);
+    d.attrs_total = Some(300);
+    d.crl_rev = Rev::Others(1);
+    msgs.push(d);
+    let mut rng = ctx.rng("flip-positions");
+    let per = (budget / msgs.len() as u64).max(10);
+    for (mi, m) in msgs.iter().enumerate() {
+        let b = build(pool, m);
+        let Some(layout) = cms::locate(&b.bytes) else {
+            ctx.notes.push(format!("flip message {} has an unexpected layout; skipped", mi));
+            continue;
+        };
+        let key = pool.info(m.issuer);
+        let base_ok = match decode(m.entry, &b.bytes) {
+            Ok(d) => d.validate_at(&key, T0).is_ok(),
+            Err(_) => false,
+        };
+        if !base_ok {
+            ctx.obs("flip_base_messages_not_accepted", 1);
+            ctx.notes.push(format!("bit flips skipped for base message {} (signed attributes {} octets): the untouched message is rejected", mi, b.attrs_len));
+            continue;
+        }
+        ctx.obs("flip_base_messages", 1);
+        let covered = layout.covered_positions();
+        let mut todo: Vec<(usize, u8)> = Vec::new();
+        if exhaustive {
+            for (i, p) in covered.iter().enumerate() {
+                if ctx.mine(i as u64) {
+                    for bit in 0..8 {
+                        todo.push((*p, bit));
+                    }
+                }
+            }
+        } else {
+            let mut seen: Vec<&str> = Vec::new();
+            for p in &covered {
+                let r = layout.region(*p).unwrap();
+                if !seen.contains(&r) {
+                    seen.push(r);
+                    todo.push((*p, rng.below(8) as u8));
+                }
+            }
+            while (todo.len() as u64) < per {
+                todo.push((*rng.pick(&covered), rng.below(8) as u8));
+            }
+        }
+        let uncovered: Vec<usize> = (0..layout.total).filter(|p| layout.region(*p).is_none()).collect();
+        let n_unc = if exhaustive { 40 } else { 10 };
+        let mut unc: Vec<(usize, u8)> = Vec::new();
+        for _ in 0..n_unc.min(uncovered.len()) {
+            unc.push((*rng.pick(&uncovered), rng.below(8) as u8));
+        }
+        let mut n = 0u64;
+        for (is_cov, (pos, bit)) in todo.into_iter().map(|x| (true, x)).chain(unc.into_iter().map(|x| (false, x))) {
+            let region = layout.region(pos).unwrap_or("uncovered");
+            let flipped = cms::flip(&b.bytes, pos, bit);
+            let r = ctx.no_panic(
+                "decode-validate-flipped",
+                || json!({"entry": m.entry.name(), "byte": pos, "bit": bit, "message": hex(&flipped)}),
+                || match decode(m.entry, &flipped) {
+                    Err(e) => (false, Err(e)),
+                    Ok(d) => (true, d.validate_at(&key, T0)),
+                },
+            );
+            let Some((decoded, res)) = r else { continue };
+            n += 1;
+            ctx.obs(&format!("flip:{}:{}", region, if !decoded { "undecodable" } else if res.is_ok() { "accepted" } else { "rejected" }), 1);
+            if !exhaustive || (pos % 16 == 0 && bit == 0) {
+                ctx.sig(&format!("flip {} region={} decoded={}", m.entry.name(), region, decoded));
+            }
+            if is_cov && res.is_ok() {
+                ctx.violation(
+                    &format!("C10:bit-flip-accepted:{}", region),
+                    &format!("a message with one bit flipped inside {} (covered by digest or a signature) still validates", region),
+                    json!({"entry": m.entry.name(), "byte": pos, "bit": bit, "region": region, "t": T0, "original": hex(&b.bytes), "flipped": hex(&flipped)}),
+                );
+            }
+            ctx.sample(if is_cov { "d:flip:covered" } else { "d:flip:uncovered" }, || json!({"entry": m.entry.name(), "byte": pos, "bit": bit, "region": region, "observed": format!("{:?}", res)}));
+        }
+        ctx.evals(n);
+    }
+}
+
+//------------ driver ---------------------------------------------------------
 
 pub fn run(ctx: &mut Ctx) {
-    ctx.notes.push("C10: monitor not built yet".into());
+    if ctx.no_ffi() {
+        ctx.notes.push("C10 needs aws-lc (signatures, digests); nothing to do under Miri".into());
+        return;
+    }
+    let pool = PoolSigner::new(NKEYS);
+    // ---- part 1
+    let thorough = ctx.tier == Tier::Thorough;
+    let created = ctx.stage_budget((600, 12_000), if thorough { 600 } else { 120 }, 0, 8);
+    let mut rng = ctx.rng("created");
+    for j in 0..created {
+        let i = ctx.shard + j * ctx.nshards.max(1);
+        created_message(ctx, &pool, &mut rng, i);
+    }
+    // ---- part 2
+    let messages = ctx.stage_budget((5_000, 150_000), if thorough { 5_000 } else { 800 }, 0, 48);
+    let full_plan = ctx.stage != Stage::Valgrind;
+    let mut rng = ctx.rng("messages");
+    let mut done = 0u64;
+    let mut g = 0u64;
+    let mut round = 0u64;
+    'outer: loop {
+        for m in round_msgs(&mut rng, round) {
+            let mine = ctx.mine(g);
+            g += 1;
+            if !mine {
+                continue;
+            }
+            if m.shuffle.is_some() {
+                // unsorted SET OF: run under both signature inputs; at least one must validate
+                let mut a = m.clone();
+                a.sign_der = false;
+                let mut b = m.clone();
+                b.sign_der = true;
+                let unsorted = !build(&pool, &a).sorted;
+                if unsorted {
+                    a.label = "unsorted-signed-as-emitted".into();
+                    b.label = "unsorted-signed-der-sorted".into();
+                    let ra = run_msg_recorded(ctx, &pool, &a, full_plan);
+                    let rb = run_msg_recorded(ctx, &pool, &b, full_plan);
+                    done += 2;
+                    if let (Some(false), Some(false)) = (ra, rb) {
+                        if m.entry != Entry::SignedStrict {
+                            let built = build(&pool, &a);
+                            if built.attrs_len < 128 {
+                                ctx.violation(
+                                    "C10:valid-rejected:unsorted-attrs-under-both-signature-inputs",
+                                    "a message whose signed attributes are not in DER order was rejected both when signed over the transmitted order and when signed over the DER order",
+                                    msg_json(&a, &built),
+                                );
+                            } else {
+                                ctx.violation(
+                                    &format!("C10:valid-rejected:signed-attrs{}", cms::size_class(built.attrs_len)),
+                                    "a message with long, unsorted signed attributes was rejected under both signature inputs",
+                                    msg_json(&a, &built),
+                                );
+                            }
+                        }
+                    }
+                } else {
+                    run_msg(ctx, &pool, &a, full_plan);
+                    done += 1;
+                }
+            } else {
+                run_msg(ctx, &pool, &m, full_plan);
+                done += 1;
+            }
+            if done >= messages {
+                break 'outer;
+            }
+        }
+        round += 1;
+        if round > 10_000 {
+            break;
+        }
+    }
+    ctx.obs("rounds_started", round + 1);
+    // ---- bit flips
+    let exhaustive = ctx.tier == Tier::Thorough && ctx.stage == Stage::Native;
+    let flips = ctx.stage_budget((8_000, 0), if thorough { 12_000 } else { 2_000 }, 0, 1_200);
+    run_flips(ctx, &pool, flips, exhaustive);
+    ctx.obs("signatures_by_pool_signer", pool.signatures.get());
+}
+
+/// Runs a message whose outcome is only recorded (unsorted attribute sets).
+fn run_msg_recorded(ctx: &mut Ctx, pool: &PoolSigner, m: &Msg, full_plan: bool) -> Option<bool> {
+    // reuse run_msg's bookkeeping but suppress its assertions by evaluating here
+    let b = build(pool, m);
+    let key = pool.info(m.issuer);
+    let r = ctx.no_panic("decode-validate-unsorted", || msg_json(m, &b), || match decode(m.entry, &b.bytes) {
+        Err(e) => Err(e),
+        Ok(d) => d.validate_at(&key, T0),
+    })?;
+    let _ = full_plan;
+    ctx.eval();
+    ctx.obs(&format!("recorded:{}:{}", m.label, if r.is_ok() { "accepted" } else { "rejected" }), 1);
+    ctx.obs(if r.is_ok() { "accepted" } else { "rejected" }, 1);
+    ctx.sig(&format!("msg {} order=unsorted attrs{} {} extras={}", m.entry.name(), cms::size_class(b.attrs_len), m.label, m.extras));
+    ctx.sample("e:recorded-unsorted", || json!({"signature_input": m.label, "entry": m.entry.name(), "signed_attrs_len": b.attrs_len, "observed": format!("{:?}", r)}));
+    Some(r.is_ok())
 }
